@@ -67,7 +67,21 @@ pub const PROPER_SECOND: &[&str] = &["Cash", "Feelgood", "Betty", "Jones", "Caro
 /// cycles through simple, common and proper names; unique per program
 /// (case-insensitively) for n < 20 + 60 + 36.
 pub fn var_name(n: usize, kind_pick: usize) -> String {
-    match kind_pick % 3 {
+    // every (n, kind) maps to a different name: beyond the pools, three-word
+    // proper names indexed by n
+    let kind = match kind_pick % 3 {
+        0 if n < SIMPLE_NAMES.len() => 0,
+        0 | 1 if n < COMMON_WORDS.len() * COMMON_PREFIXES.len() => 1,
+        2 if n < PROPER_FIRST.len() * PROPER_SECOND.len() => 2,
+        _ => 3,
+    };
+    match kind {
+        3 => format!(
+            "{} {} {}",
+            PROPER_FIRST[n % PROPER_FIRST.len()],
+            PROPER_SECOND[(n / PROPER_FIRST.len()) % PROPER_SECOND.len()],
+            SIMPLE_NAMES[(n / (PROPER_FIRST.len() * PROPER_SECOND.len())) % SIMPLE_NAMES.len()]
+        ),
         0 => SIMPLE_NAMES[n % SIMPLE_NAMES.len()].to_string(),
         1 => format!(
             "{} {}",
@@ -114,7 +128,7 @@ impl<'a> Renderer<'a> {
         // names must stay capitalised word by word.
         let words: Vec<&str> = base.split(' ').collect();
         let is_common = words.len() == 2 && COMMON_PREFIXES.contains(&words[0]);
-        let is_proper = words.len() == 2 && !is_common;
+        let is_proper = words.len() >= 2 && !is_common;
         match self.st.pick(5) {
             0..=2 => base.clone(),
             3 => {
@@ -509,7 +523,7 @@ impl<'a> Renderer<'a> {
                     7 => "Cast \"42\" into Numeral",
                     8 => "Turn up Junk",
                     9 => "Turn Junk around",
-                    10 => "Let Junk be Junk over 4",
+                    10 => "Rock Stack with 1, 2, 3, 4, 5, 6, 7, 8, 9, 10, 11",
                     0 => "Put 1 plus 2 into Junk",
                     1 => "Rock Stack with 1, 2",
                     2 => "Roll Stack",
